@@ -795,17 +795,50 @@ func C13(c *Ctx) {
 	}
 	// Step refuses uncompiled specs
 	if step := c.P.Func("core", "Spec", "Step"); step != nil {
-		ok := false
-		for _, b := range step.Blocks {
-			iff, isIf := b.Instrs[len(b.Instrs)-1].(*ssa.If)
-			if !isIf {
-				continue
-			}
-			if _, is := isFieldLoad(iff.Cond, "core", "Spec", "compiled"); is {
-				if returnsErr(b.Succs[1], nil) {
-					ok = true
+		// refuses(f): f tests Spec.compiled of the spec that is its parameter #pi and returns an error when it is false
+		refuses := func(f *ssa.Function) (pi int, ok bool) {
+			for _, b := range f.Blocks {
+				iff, isIf := b.Instrs[len(b.Instrs)-1].(*ssa.If)
+				if !isIf {
+					continue
+				}
+				if base, is := isFieldLoad(iff.Cond, "core", "Spec", "compiled"); is {
+					if returnsErr(b.Succs[1], nil) {
+						for i, p := range f.Params {
+							if p == base {
+								return i, true
+							}
+						}
+						return -1, true
+					}
 				}
 			}
+			return -1, false
+		}
+		_, ok := refuses(step)
+		if !ok && len(step.Params) > 0 {
+			// the precondition checks may live in a helper that is given Step's spec and whose error Step hands on
+			ssau.Instrs(step, func(in ssa.Instruction) {
+				cl, isC := in.(*ssa.Call)
+				if !isC || ok {
+					return
+				}
+				h := cl.Common().StaticCallee()
+				if h == nil || h.Blocks == nil || prog.PkgOf(h) != "core" || h.Signature.Results().Len() == 0 {
+					return
+				}
+				pi, is := refuses(h)
+				if !is || pi < 0 || pi >= len(cl.Common().Args) || cl.Common().Args[pi] != step.Params[0] {
+					return
+				}
+				var ev ssa.Value = cl
+				if nres := h.Signature.Results().Len(); nres > 1 {
+					ev = callResults(cl)[nres-1]
+				}
+				if ev != nil && errPropagated(step, ev) {
+					ok = true
+				}
+			})
 		}
 		c.R.Check(ok, "C13-R3", "Step: refuses a spec that was not compiled", c.P.Pos(step.Pos()), "error return under !compiled", "Step no longer rejects uncompiled specs")
 	}
